@@ -115,6 +115,25 @@ pub fn generate(
         }
     };
 
+    #[cfg(lexgen_verif)]
+    {
+        crate::verif::field(
+            "renumber",
+            crate::dfa::verif::renumber_json(&dfa, ctx.n_inlined_states(), |s| {
+                ctx.renumber_state(s)
+            }),
+        );
+        let switch: Vec<(String, StateIdx)> = ctx
+            .rule_states()
+            .iter()
+            .map(|(name, idx)| (name.clone(), ctx.renumber_state(*idx)))
+            .collect();
+        crate::verif::field(
+            "switch_arms",
+            crate::dfa::verif::entry_json(switch.iter().map(|(k, v)| (k, v))),
+        );
+    }
+
     let match_arms = generate_state_arms(&mut ctx, dfa);
 
     let switch_method = generate_switch(&ctx, &rule_name_enum_name);
